@@ -48,7 +48,7 @@ Section FK.
   Proof.
     intros H x k Hx Hk. apply agent_req_shape in H as [[-> _]|[st [v [-> [_ [_ Hbad]]]]]]; [contradiction|].
     destruct Hx as [<-|[]]. unfold FK in Hk. simpl in Hk.
-    destruct ph, st; simpl in *; try discriminate;
+    destruct r; destruct ph, st; simpl in *; try discriminate;
       (split; [apply Hbad; discriminate | exact Hk]).
   Qed.
 
